@@ -2,9 +2,10 @@ package main
 
 // Facts for C18 (stateless cookie exchange of the DTLCP server), dtlcp package only:
 //
-//   - what generateCookie feeds to the MAC, in order (address, parameters, length prefixes),
-//     under which key and hash; that verifyCookie recomputes and compares in constant time;
-//   - the field layout written by clientHelloMsg.marshalForCookie;
+//   - (informational only since these three functions are translated to Lean and tied to the model
+//     by Tie/Cookie.lean; not pinned, never "missing") what generateCookie feeds to the MAC, in order
+//     (address, parameters, length prefixes), under which key and hash; that verifyCookie recomputes
+//     and compares in constant time; the field layout written by clientHelloMsg.marshalForCookie;
 //   - where the cookie secret comes from (effectiveCookieSecret);
 //   - a control skeleton of the cookie loop at the start of serverHandshake: its shape, the
 //     direct calls made before the loop can exit, every function name reachable (by name,
@@ -229,12 +230,14 @@ func emitCookie(e *emitter, p *pkg) {
 			}
 		}
 	}
-	if okGen {
-		e.strList("cookieWrites", writes)
-	} else {
-		e.strList("cookieWrites", nil)
-		e.missing = append(e.missing, e.key("cookieWrites"))
-	}
+	// cookieWrites, cookieMacIsHmacSm3OfSecret, cookieVerifyRecomputesConstTime and
+	// cookieParamsLayout are informational since the translation tie (Tie/Cookie.lean proves the
+	// translated generateCookie / verifyCookie / marshalForCookie equal to the model for all
+	// inputs): they match statement TEXTS, so a rename-only edit changes them; they are no longer
+	// pinned by C18_facts, do not parameterise the model, and an unrecognised shape or an absent
+	// function is never reported as a missing fact (go2lean lists it in Src.untranslated instead)
+	_ = okGen
+	e.strList("cookieWrites", writes)
 	e.boolean("cookieMacIsHmacSm3OfSecret", keyed)
 
 	// ---- verifyCookie: recompute + constant-time compare
@@ -319,12 +322,8 @@ func emitCookie(e *emitter, p *pkg) {
 		}
 		walk(fd.Body.List, "")
 	}
-	if okLay {
-		e.strList("cookieParamsLayout", layout)
-	} else {
-		e.strList("cookieParamsLayout", nil)
-		e.missing = append(e.missing, e.key("cookieParamsLayout"))
-	}
+	_ = okLay // informational, see above: never "missing"
+	e.strList("cookieParamsLayout", layout)
 
 	// ---- clientHelloMsg.unmarshal: does it insist on one complete, unfragmented message
 	// (fragment_offset 0, fragment_length = length = bytes present)?  Added by the F18 repair;
